@@ -119,11 +119,11 @@ theorem nfInv_setBefore {e : Expr} (h : e.nfInv) {b : List Trivia} (hb : Alt b) 
   | app n x g fa b' a => exact ⟨h.1, h.2.1, h.2.2.1, h.2.2.2.1, hb, h.2.2.2.2.2⟩
   | wth => exact h.elim
   | asrt => exact h.elim
-  | sel => exact h.elim
-  | selOr => exact h.elim
-  | lam => exact h.elim
-  | un => exact h.elim
-  | bin => exact h.elim
+  | sel e ats g ab b' a => obtain ⟨h1, h2, h3, _, h5⟩ := h; exact ⟨h1, h2, h3, hb, h5⟩
+  | selOr e ats g ab d dg db b' a => obtain ⟨h1, h2, h3, h4, h5, h6, _, h8⟩ := h; exact ⟨h1, h2, h3, h4, h5, h6, hb, h8⟩
+  | lam n bcc g k body b' a => obtain ⟨h1, h2, h3, h4, h5, _, h7⟩ := h; exact ⟨h1, h2, h3, h4, h5, hb, h7⟩
+  | un op e g bt b' a => obtain ⟨h1, h2, h3, h4, _, h6⟩ := h; exact ⟨h1, h2, h3, h4, hb, h6⟩
+  | bin op l r x y b' a => obtain ⟨h1, h2, h3, h4, h5, _, h7⟩ := h; exact ⟨h1, h2, h3, h4, h5, hb, h7⟩
 
 theorem nfInv_addAfter {e : Expr} (h : e.nfInv) (hc : closedT (e.effAfter false)) {ts : List Trivia} (hts : Alt ts) :
     (e.addAfter ts).nfInv := by
@@ -140,11 +140,12 @@ theorem nfInv_addAfter {e : Expr} (h : e.nfInv) (hc : closedT (e.effAfter false)
   | app n x g fa b a => exact ⟨h.1, h.2.1, h.2.2.1, h.2.2.2.1, h.2.2.2.2.1, alt_append_closed h.2.2.2.2.2 hc hts⟩
   | wth => exact h.elim
   | asrt => exact h.elim
-  | sel => exact h.elim
-  | selOr => exact h.elim
-  | lam => exact h.elim
-  | un => exact h.elim
-  | bin => exact h.elim
+  | sel e ats g ab b a => obtain ⟨h1, h2, h3, h4, h5⟩ := h; exact ⟨h1, h2, h3, h4, alt_append_closed h5 hc hts⟩
+  | selOr e ats g ab d dg db b a =>
+    obtain ⟨h1, h2, h3, h4, h5, h6, h7, h8⟩ := h; exact ⟨h1, h2, h3, h4, h5, h6, h7, alt_append_closed h8 hc hts⟩
+  | lam n bcc g k body b a => obtain ⟨h1, h2, h3, h4, h5, h6, h7⟩ := h; exact ⟨h1, h2, h3, h4, h5, h6, alt_append_closed h7 hc hts⟩
+  | un op e g bt b a => obtain ⟨h1, h2, h3, h4, h5, h6⟩ := h; exact ⟨h1, h2, h3, h4, h5, alt_append_closed h6 hc hts⟩
+  | bin op l r x y b a => obtain ⟨h1, h2, h3, h4, h5, h6, h7⟩ := h; exact ⟨h1, h2, h3, h4, h5, h6, alt_append_closed h7 hc hts⟩
 
 theorem closedT_append {a b : List Trivia} (ha : closedT a) (hb : closedT b) : closedT (a ++ b) := by
   rcases hb with h | ⟨c, hc⟩
@@ -599,11 +600,94 @@ mutual
 theorem cst_nf : (c : Cst) → c.wf = true → c.basic = true → ∀ (e : Expr), c.parse = .ok e →
     e.nfInv ∧ e.before = [] ∧ e.after = [] ∧ e.notBinding = true
   | .kw .., _, hbs, _, _ => by simp [Cst.basic] at hbs
-  | .sel .., _, hbs, _, _ => by simp [Cst.basic] at hbs
-  | .selOr .., _, hbs, _, _ => by simp [Cst.basic] at hbs
-  | .lam .., _, hbs, _, _ => by simp [Cst.basic] at hbs
-  | .un .., _, hbs, _, _ => by simp [Cst.basic] at hbs
-  | .bin .., _, hbs, _, _ => by simp [Cst.basic] at hbs
+  | .sel e c1 g1 gd attrs, hwf, hbs, ex, hp => by
+    simp only [Cst.wf, Bool.and_eq_true, List.isEmpty_iff] at hwf
+    obtain ⟨⟨⟨⟨⟨hew, hc1⟩, _⟩, _⟩, _⟩, _⟩ := hwf
+    subst hc1
+    simp only [Cst.basic] at hbs
+    simp only [Cst.parse] at hp
+    cases hpe : e.parse with
+    | error err => rw [hpe] at hp; cases hp
+    | ok ee =>
+      rw [hpe] at hp; injection hp with hp; subst hp
+      obtain ⟨hen, heb, _, _⟩ := cst_nf e hew hbs ee hpe
+      exact ⟨⟨hen, heb, by simp [collectTrivia, collectGo], trivial, trivial⟩, rfl, rfl, rfl⟩
+  | .selOr e c1 g1 gd attrs c2 g2 g3 d, hwf, hbs, ex, hp => by
+    simp only [Cst.wf, Bool.and_eq_true, List.isEmpty_iff] at hwf
+    obtain ⟨⟨⟨⟨⟨⟨⟨⟨⟨hew, hc1⟩, _⟩, _⟩, _⟩, _⟩, hc2⟩, _⟩, _⟩, hdw⟩ := hwf
+    subst hc1; subst hc2
+    simp only [Cst.basic, Bool.and_eq_true] at hbs
+    simp only [Cst.parse] at hp
+    cases hpe : e.parse with
+    | error err => rw [hpe] at hp; cases hp
+    | ok ee =>
+      rw [hpe] at hp
+      cases hpd : d.parse with
+      | error err => rw [hpd] at hp; cases hp
+      | ok de =>
+        rw [hpd] at hp; injection hp with hp; subst hp
+        obtain ⟨hen, heb, _, _⟩ := cst_nf e hew hbs.1 ee hpe
+        obtain ⟨hdn, hdb, _, _⟩ := cst_nf d hdw hbs.2 de hpd
+        exact ⟨⟨hen, heb, by simp [collectTrivia, collectGo], hdn, hdb, by simp [collectTrivia, collectGo], trivial, trivial⟩,
+          rfl, rfl, rfl⟩
+  | .lam n c1 g1 c2 g2 b, hwf, hbs, ex, hp => by
+    simp only [Cst.wf, Bool.and_eq_true, List.isEmpty_iff] at hwf
+    obtain ⟨⟨⟨⟨⟨hn, hc1⟩, _⟩, hc2⟩, _⟩, hbw⟩ := hwf
+    subst hc1; subst hc2
+    simp only [Cst.basic, Bool.and_eq_true, decide_eq_true_eq] at hbs
+    simp only [Cst.parse] at hp
+    cases hpb : b.parse with
+    | error err => rw [hpb] at hp; cases hp
+    | ok be =>
+      rw [hpb] at hp; injection hp with hp; subst hp
+      obtain ⟨hbn, hbb, _, _⟩ := cst_nf b hbw hbs.2 be hpb
+      have hnsemi : n ≠ [';'] := by
+        intro h; subst h; revert hn; decide
+      have hk : (if g2.count '\n' > 0 then 1 else 0) ≤ 1 := by split <;> omega
+      refine ⟨?_, rfl, rfl, rfl⟩
+      unfold lamFromCst
+      simp only
+      by_cases hc : g2.count '\n' ≤ 1
+      · have h0 : g2.count '\n' - 1 = 0 := by omega
+        simp only [h0, List.replicate_zero, List.isEmpty_nil, if_true]
+        refine ⟨hbn, by simp [collectTrivia, collectGo], hk, fun _ => hbb, hnsemi, trivial, trivial⟩
+      · have h1 : g2.count '\n' - 1 = 1 := by omega
+        have hpos : g2.count '\n' > 0 := by omega
+        simp only [h1, List.replicate_one, List.isEmpty_cons, Bool.false_eq_true, if_false, hpos, if_true]
+        refine ⟨nfInv_setBefore hbn (by rw [hbb]; trivial), by simp [collectTrivia, collectGo], Nat.le_refl _,
+          (fun h => by cases h), hnsemi, trivial, trivial⟩
+  | .un op c g e, hwf, hbs, ex, hp => by
+    simp only [Cst.wf, Bool.and_eq_true, List.isEmpty_iff] at hwf
+    obtain ⟨⟨⟨hop, hc⟩, _⟩, hew⟩ := hwf
+    subst hc
+    simp only [Cst.basic] at hbs
+    simp only [Cst.parse] at hp
+    cases hpe : e.parse with
+    | error err => rw [hpe] at hp; cases hp
+    | ok ee =>
+      rw [hpe] at hp; injection hp with hp; subst hp
+      obtain ⟨hen, heb, _, _⟩ := cst_nf e hew hbs ee hpe
+      have hopsemi : op ≠ [';'] := by
+        intro h; subst h; revert hop; decide
+      exact ⟨⟨hen, heb, by simp [collectTrivia, collectGo], hopsemi, trivial, trivial⟩, rfl, rfl, rfl⟩
+  | .bin l c1 g1 op c2 g2 r, hwf, hbs, ex, hp => by
+    simp only [Cst.wf, Bool.and_eq_true, List.isEmpty_iff] at hwf
+    obtain ⟨⟨⟨⟨⟨⟨⟨hlw, hc1⟩, _⟩, hop⟩, _⟩, hc2⟩, _⟩, hrw⟩ := hwf
+    simp only [Cst.basic, Bool.and_eq_true] at hbs
+    simp only [Cst.parse] at hp
+    cases hpl : l.parse with
+    | error err => rw [hpl] at hp; cases hp
+    | ok le =>
+      rw [hpl] at hp
+      cases hpr : r.parse with
+      | error err => rw [hpr] at hp; cases hp
+      | ok re =>
+        rw [hpr] at hp; injection hp with hp; subst hp
+        obtain ⟨hln, hlb, _, _⟩ := cst_nf l hlw hbs.1 le hpl
+        obtain ⟨hrn, hrb, _, _⟩ := cst_nf r hrw hbs.2 re hpr
+        have hopsemi : op ≠ [';'] := by
+          intro h; subst h; revert hop; decide
+        exact ⟨⟨hln, hlb, hrn, hrb, hopsemi, trivial, trivial⟩, rfl, rfl, rfl⟩
   | .paren its cg, hwf, hbs, e, hp => by
     simp only [Cst.wf, Bool.and_eq_true, beq_iff_eq] at hwf
     simp only [Cst.parse] at hp
@@ -945,11 +1029,15 @@ theorem inlineClean_of_B : (e : Expr) → e.inlineCleanB = true → e.inlineClea
     · exact h1
   | .wth .., h => by simp [Expr.inlineCleanB] at h
   | .asrt .., h => by simp [Expr.inlineCleanB] at h
-  | .sel .., h => by simp [Expr.inlineCleanB] at h
-  | .selOr .., h => by simp [Expr.inlineCleanB] at h
-  | .lam .., h => by simp [Expr.inlineCleanB] at h
-  | .un .., h => by simp [Expr.inlineCleanB] at h
-  | .bin .., h => by simp [Expr.inlineCleanB] at h
+  | .sel e _ _ _ _ _, h => inlineClean_of_B e h
+  | .selOr e _ _ _ d _ _ _ _, h => by
+    simp only [Expr.inlineCleanB, Bool.and_eq_true] at h
+    exact ⟨inlineClean_of_B e h.1, inlineClean_of_B d h.2⟩
+  | .lam _ _ _ _ body _ _, h => inlineClean_of_B body h
+  | .un _ e _ _ _ _, h => inlineClean_of_B e h
+  | .bin _ l r ogl rgl _ _, h => by
+    simp only [Expr.inlineCleanB, Bool.and_eq_true, decide_eq_true_eq] at h
+    exact ⟨h.1.1.1, h.1.1.2, inlineClean_of_B l h.1.2, inlineClean_of_B r h.2⟩
 theorem allInlineClean_of_B : (es : List Expr) → allInlineCleanB es = true → allInlineClean es
   | [], _ => trivial
   | e :: rest, h => by
